@@ -51,7 +51,7 @@ PoolX == Pool \cup {Rule("tcp8080", "ACCEPT"), Rule("tcp80net", "ACCEPT"), Rule(
                     Rule("lowports", "ACCEPT"), Rule("udp1024x", "ACCEPT"), Rule("vrrp", "ACCEPT"), Rule("proto113", "ACCEPT"),
                     Rule("icmp8", "ACCEPT"), Rule("icmp0", "ACCEPT"), Rule("state1", "ACCEPT"), Rule("possrc", "DROP"),
                     Rule("negold", "DROP"), Rule("markhex", "MARK"), Rule("markmask", "MARK"), Rule("loginfo", "LOG"),
-                    Rule("ifin", "ACCEPT"), Rule("ifout", "ACCEPT")}
+                    Rule("ifin", "ACCEPT"), Rule("ifout", "ACCEPT"), Rule("frag", "ACCEPT"), Rule("logtcp", "LOG"), Rule("logip", "LOG")}
 I3 ==
   \E a, b \in InjSeqs(PoolX \ {Rule("drop", "DROP")}, 1), tail \in {<<>>, <<Rule("drop", "DROP")>>} :
     /\ dev = Cfg({}, [filter |-> [INPUT |-> Chain("DROP", a \o tail)]])
